@@ -39,7 +39,7 @@ def handle : List String → Option String
     pure ("ok " ++ ";".intercalate ((List.range ins.length).map (fun i => showInts (shown i) ++ "|" ++ showInts (recd i))))
   | ["facts"] =>
     let g := ScriggoV.Gen.SharedWrites.writeSites.length
-    pure s!"ok writes={g} pkgvarwrites={ScriggoV.Gen.SharedWrites.pkgVarWrites.length} refvars={ScriggoV.Gen.SharedWrites.pkgRefVars.length} allocs={ScriggoV.Gen.SharedWrites.callableAllocs.length} stores={ScriggoV.Gen.SharedWrites.generalStores.length} poolfill={ScriggoV.Gen.SharedWrites.argsPoolFilledOnEveryPath} globalvaluestores={ScriggoV.Gen.SharedWrites.globalValueStores.length} globalvalueuses={ScriggoV.Gen.SharedWrites.globalValueUses.length} buildtimeallocs={ScriggoV.Gen.SharedWrites.buildTimeAllocs.length} nativevarimport={ScriggoV.Gen.SharedWrites.nativeVarImport.length}"
+    pure s!"ok writes={g} pkgvarwrites={ScriggoV.Gen.SharedWrites.pkgVarWrites.length} refvars={ScriggoV.Gen.SharedWrites.pkgRefVars.length} allocs={ScriggoV.Gen.SharedWrites.callableAllocs.length} stores={ScriggoV.Gen.SharedWrites.generalStores.length} poolfill={ScriggoV.Gen.SharedWrites.argsPoolFilledOnEveryPath} globalvaluestores={ScriggoV.Gen.SharedWrites.globalValueStores.length} globalvalueuses={ScriggoV.Gen.SharedWrites.globalValueUses.length} buildtimeallocs={ScriggoV.Gen.SharedWrites.buildTimeAllocs.length} nativevarimport={ScriggoV.Gen.SharedWrites.nativeVarImport.length} storedvalues={ScriggoV.Gen.SharedWrites.storedValues.length} perrunstores={(ScriggoV.Gen.SharedWrites.storedValues.filter (·.perRun)).length}"
   | _ => none
 
 end ScriggoV.Drv.C10
